@@ -433,6 +433,100 @@ fn long_lived_env_job(ctx: &Ctx, target_nodes: usize) -> Stats {
     st
 }
 
+/// VERY LONG histories on one set: a query, then exactly N modifications (N around 2^8 and 2^16 and
+/// their multiples — where a narrow counter of modifications would wrap), then the same query
+/// first and all the others after it. The modifications are chosen so that the answer must have
+/// changed: a remembered answer is a wrong one.
+fn wraparound_job(ctx: &Ctx, job: usize) -> Stats {
+    let mut st = Stats::new();
+    let counts: Vec<usize> = ctx.tier.pick(vec![255usize, 256, 257, 65_535, 65_536, 65_537, 131_072], vec![255, 256, 257, 511, 512, 65_535, 65_536, 65_537, 131_071, 131_072, 196_608, 262_144]);
+    for (ci, n_mods) in counts.iter().enumerate() {
+        for shape in 0..4usize {
+            if (ci * 4 + shape) % 16 != job {
+                continue;
+            }
+            let n_mods = *n_mods;
+            let bits = [3usize, 4, 16, 4][shape];
+            if bits == 16 && !(ctx.tier == crate::report::Tier::Thorough && (n_mods == 65_536 || n_mods == 65_537)) {
+                continue; // (65 536 inserts into a 16-bit set take about a minute: thorough tier only)
+            }
+            st.evals += 1;
+            let case = json!({"kind": "wraparound", "modifications": n_mods, "shape": shape});
+            util::budget(u64::MAX, 1000);
+            let r = guarded(move || -> Result<u64, String> {
+                let env = Rc::new(BDDEnv::new());
+                let s = BDDSet::with_env(bits, &env);
+                let other = BDDSet::with_env(bits, &env);
+                let probe = if bits == 16 { 12_345usize } else { 5 };
+                let mask = (1usize << bits) - 1;
+                let mut reference: std::collections::BTreeSet<usize> = std::collections::BTreeSet::new();
+                // shapes 0-2 start empty and end with the probe inside; shape 3 starts full and ends without it
+                if shape == 3 {
+                    s.universe();
+                    reference = (0..=mask).collect();
+                }
+                let before = s.contains(probe);
+                if before != reference.contains(&probe) {
+                    return Err(format!("first query: contains({}) = {}", probe, before));
+                }
+                for i in 0..n_mods {
+                    let last = i + 1 == n_mods;
+                    match shape {
+                        0 | 1 => {
+                            // inserts walking through the universe; the last one inserts the probe
+                            let e = if last { probe } else { (i * 7 + 1) & mask };
+                            s.insert(e);
+                            reference.insert(e);
+                        }
+                        2 => {
+                            let e = if last { probe } else { (i * 37 + 11) & mask };
+                            if last || e != probe {
+                                s.insert(e);
+                                reference.insert(e);
+                            } else {
+                                s.union(&other);
+                            }
+                        }
+                        _ => {
+                            // universe / empty flips, ending empty
+                            if (n_mods - i) % 2 == 0 {
+                                s.universe();
+                                reference = (0..=mask).collect();
+                            } else {
+                                s.empty();
+                                reference.clear();
+                            }
+                        }
+                    }
+                }
+                let after = s.contains(probe);
+                if after != reference.contains(&probe) {
+                    return Err(format!("contains({}) = {} before and {} after {} modifications; the reference says {}", probe, before, after, n_mods, reference.contains(&probe)));
+                }
+                let mut asked = 0u64;
+                for e in (0..=mask).step_by(if bits == 16 { 257 } else { 1 }) {
+                    asked += 1;
+                    if s.contains(e) != reference.contains(&e) {
+                        return Err(format!("after {} modifications contains({}) = {}, the reference says {}", n_mods, e, !reference.contains(&e), reference.contains(&e)));
+                    }
+                }
+                Ok(asked)
+            });
+            match r {
+                Ok(Ok(asked)) => {
+                    st.bump("very_long_single_set_histories");
+                    st.max("max_modifications_of_one_set", n_mods as u64);
+                    st.add("queries_after_very_long_histories", asked);
+                    st.nt.insert(mix(0x19_aa, (n_mods * 4 + shape) as u64));
+                }
+                Ok(Err(m)) => st.violate("c19.membership", "C19:long-history:wrong-membership".into(), format!("one {}-bit set, shape {}: {}", bits, shape, m), case),
+                Err(c) => st.violate("c19.panic", format!("C19:long-history:{}", c.signature()), format!("{:?}", c), case),
+            }
+        }
+    }
+    st
+}
+
 /// Sets of DIFFERENT widths living in ONE environment (a program with a set of bytes and a set of
 /// nibbles does exactly this): each set interacts only with sets of its own width, but every
 /// operation of every set goes through the same environment, interleaved.
@@ -682,6 +776,7 @@ pub fn run(ctx: &Ctx) -> (Stats, Spec) {
         let mut s = random_job(ctx, job, iters);
         s.merge(wide_job(ctx, job, ctx.tier.pick(40u64, 600u64)));
         s.merge(mixed_width_job(ctx, job, ctx.tier.pick(60u64, 3_000u64)));
+        s.merge(wraparound_job(ctx, job));
         if job == 0 {
             s.merge(long_lived_env_job(ctx, ctx.tier.pick(1_400_000usize, 5_000_000usize)));
         }
@@ -692,7 +787,7 @@ pub fn run(ctx: &Ctx) -> (Stats, Spec) {
         super::common::miri_tripwire(ctx, &mut st, 150);
     }
     let spec = Spec {
-        rule: "breadth-first over reference states: two sets sharing one environment, each (state pair, next operation — insert, union, intersect, complement, empty, universe, contains, and `X = Y.clone()`) executed on fresh real sets via the shortest history reaching the state, and again (b <= 2: always, b = 3: every fourth state) after all REDUNDANT steps of that state (operations that leave the reference state unchanged); then all memberships of both sets are read twice through contains() and the public bdd field is compared across the queries; plus histories on WIDE sets (b in {31, 32, 33, 40, 48, 63, 64} with usize elements or a user-defined element type, b in {65, 66, 72, 96, 127, 128} with a user-defined 128-bit element type) over pools of sampled elements, their one-bit neighbours and (b > 64) elements equal modulo 2^64; plus histories over six to eight sets of DIFFERENT widths (families {1,2,3}, {2,3,4,5}, {3,4}, {0,1,6}, {4,64}, {2,33,5}, {3,3,4,4}; two sets per width) in one environment (sets also re-made through from_element and from_bdd), all memberships of all sets read back after every step; plus ONE long history of two 64-bit sets in one environment that grows beyond 1.4 million [quick] / 5 million [thorough] nodes, memberships of the newest, older and never-inserted elements compared after every step; plus random histories of length 5-64 [quick] / 5-504 [thorough] with b in 2..4. distinct = (state pair before the last operation, last operation, b); non-trivial = both sets neither empty nor the universe.".into(),
+        rule: "breadth-first over reference states: two sets sharing one environment, each (state pair, next operation — insert, union, intersect, complement, empty, universe, contains, and `X = Y.clone()`) executed on fresh real sets via the shortest history reaching the state, and again (b <= 2: always, b = 3: every fourth state) after all REDUNDANT steps of that state (operations that leave the reference state unchanged); then all memberships of both sets are read twice through contains() and the public bdd field is compared across the queries; plus histories on WIDE sets (b in {31, 32, 33, 40, 48, 63, 64} with usize elements or a user-defined element type, b in {65, 66, 72, 96, 127, 128} with a user-defined 128-bit element type) over pools of sampled elements, their one-bit neighbours and (b > 64) elements equal modulo 2^64; plus histories over six to eight sets of DIFFERENT widths (families {1,2,3}, {2,3,4,5}, {3,4}, {0,1,6}, {4,64}, {2,33,5}, {3,3,4,4}; two sets per width) in one environment (sets also re-made through from_element and from_bdd), all memberships of all sets read back after every step; plus histories of exactly 255 .. 131 072 [quick] / .. 262 144 [thorough] modifications of ONE set between two identical queries (inserts through the universe, unions with an empty set, universe / empty flips); plus ONE long history of two 64-bit sets in one environment that grows beyond 1.4 million [quick] / 5 million [thorough] nodes, memberships of the newest, older and never-inserted elements compared after every step; plus random histories of length 5-64 [quick] / 5-504 [thorough] with b in 2..4. distinct = (state pair before the last operation, last operation, b); non-trivial = both sets neither empty nor the universe.".into(),
         assumptions: vec![
             "only elements < 2^b are used (the statement speaks of b-bit integers)".into(),
             "`complement` is set difference, as the statement says".into(),
@@ -700,6 +795,7 @@ pub fn run(ctx: &Ctx) -> (Stats, Spec) {
         ],
         floors: vec![
             ("self_aliased_ops".into(), 100, "self-aliased operands never exercised".into()),
+            ("very_long_single_set_histories".into(), 20, "histories of 2^8 / 2^16 modifications of one set never exercised".into()),
             ("histories_with_redundant_steps".into(), 1_000, "redundant steps never exercised".into()),
             ("wide_set_histories".into(), 200, "wide sets (b >= 31) never exercised".into()),
             ("wide_set_histories_with_a_user_defined_element_type".into(), 50, "sets over a user-defined element type never exercised".into()),
@@ -717,6 +813,12 @@ pub fn replay(_ctx: &Ctx, _monitor: &str, case: &Value, st: &mut Stats) {
         let mut c2 = _ctx.clone();
         c2.seed = case.get("seed").and_then(|j| j.as_u64()).unwrap_or(_ctx.seed);
         st.merge(long_lived_env_job(&c2, case.get("target").and_then(|j| j.as_u64()).unwrap_or(1_400_000) as usize));
+        return;
+    }
+    if case.get("kind").and_then(|k| k.as_str()) == Some("wraparound") {
+        for job in 0..16 {
+            st.merge(wraparound_job(_ctx, job));
+        }
         return;
     }
     if case.get("kind").and_then(|k| k.as_str()) == Some("mixed-width") {
